@@ -5,7 +5,7 @@
 From Coq Require Import List ZArith Bool.
 From PV Require Import lib.Sx lib.Str lib.Result lib.Dec.
 From PV Require Import model.Generated model.TimeRead model.TimeTree model.XmlRead.
-From PV Require Import spec.SpecTime spec.SpecTimeTree spec.SpecXmlDoc extract.OrCommon extract.OrC01.
+From PV Require Import spec.SpecTime spec.SpecTimeTree spec.SpecXmlDocT extract.OrCommon extract.OrC01.
 Import ListNotations.
 Open Scope Z_scope.
 
